@@ -70,20 +70,21 @@ func CountSteps(limit uint64, f func()) (steps uint64) {
 
 // Task is one goroutine known to the scheduler.
 type Task struct {
-	Name     string
-	Client   int // index of the root client this task belongs to
-	goid     uint64
-	wake     chan struct{}
-	parked   atomic.Bool
-	site     uint32
-	hits     []uint32
-	syncHits uint32
-	parks    int
-	done     atomic.Bool
-	rng      *SplitMix64 // per-task stream (map permutations)
-	stderr   *strings.Builder
-	Panic    any
-	Stack    string
+	Name      string
+	Client    int // index of the root client this task belongs to
+	goid      uint64
+	wake      chan struct{}
+	parked    atomic.Bool
+	site      uint32
+	hits      []uint32
+	syncHits  uint32
+	parks     int
+	syncParks int
+	done      atomic.Bool
+	rng       *SplitMix64 // per-task stream (map permutations)
+	stderr    *strings.Builder
+	Panic     any
+	Stack     string
 }
 
 // Client is one simulated caller.
@@ -109,6 +110,18 @@ type Config struct {
 	// client, which dense random switching almost never produces.
 	FreezeClient int
 	FreezeAt     int
+	// FreezeSync: FreezeAt counts only the parks at synchronisation
+	// operations (lock, unlock, pool get/put, once): "stop this client right
+	// after its second pool operation and let the others run".
+	FreezeSync bool
+	// Handoff (HandoffAfter > 0, replaces Freeze*): client HandoffWaiter does
+	// not start until client HandoffHolder has completed its HandoffAfter-th
+	// synchronisation operation; then the holder stands still until nobody
+	// else can run. The window in which something one instance has just
+	// handed to a pool, a cache or a registry is picked up by another.
+	HandoffWaiter int
+	HandoffHolder int
+	HandoffAfter  int
 	// Procs is what woven runtime.GOMAXPROCS(0)/runtime.NumCPU() calls return
 	// during this run (0: the real value).
 	Procs int
@@ -137,6 +150,7 @@ type Result struct {
 	Log         []Event
 	Adjacent    []uint64 // distinct (site before switch, site after switch) pairs
 	Deadlock    bool
+	Handoffs    int  // handoff windows opened (the holder reached its operation)
 	Thawed      int  // the frozen client was released because nothing else could run
 	ClockReads  int  // readings of the simulated clock
 	Abandoned   bool // MaxSteps reached: drained free-running
@@ -240,6 +254,9 @@ func (s *Sim) yield(site uint32) {
 
 func (t *Task) park(site uint32) {
 	t.parks++
+	if site == siteSync {
+		t.syncParks++
+	}
 	t.site = site
 	t.parked.Store(true)
 	<-t.wake
@@ -301,6 +318,10 @@ func Run(cfg Config, clients []Client) Result {
 	mode.Store(modeSched)
 	h := NewHash()
 	var prev *Task
+	handoffPhase := 0
+	if s.cfg.HandoffAfter > 0 {
+		s.cfg.FreezeAt = 0
+	}
 	for {
 		synctest.Wait()
 		alldone := true
@@ -314,9 +335,25 @@ func Run(cfg Config, clients []Client) Result {
 		}
 		var runnable []*Task
 		var frozen *Task
+		var waiter, holder *Task
+		if s.cfg.HandoffAfter > 0 && len(s.clients) > 1 {
+			waiter, holder = s.clients[s.cfg.HandoffWaiter%len(s.clients)], s.clients[s.cfg.HandoffHolder%len(s.clients)]
+			if waiter == holder {
+				waiter = s.clients[(s.cfg.HandoffWaiter+1)%len(s.clients)]
+			}
+			if handoffPhase == 0 && holder.parked.Load() && holder.site == siteSync && holder.syncParks >= s.cfg.HandoffAfter {
+				handoffPhase = 1
+				s.res.Handoffs++
+			}
+		}
 		for _, t := range *s.tasks.Load() {
 			if t.parked.Load() {
-				if s.cfg.FreezeAt > 0 && t == s.clients[s.cfg.FreezeClient%len(s.clients)] && t.parks >= s.cfg.FreezeAt {
+				if waiter != nil && ((handoffPhase == 0 && t == waiter) || (handoffPhase == 1 && t == holder)) {
+					frozen = t
+					continue
+				}
+				if s.cfg.FreezeAt > 0 && t == s.clients[s.cfg.FreezeClient%len(s.clients)] &&
+					((!s.cfg.FreezeSync && t.parks >= s.cfg.FreezeAt) || (s.cfg.FreezeSync && t.site == siteSync && t.syncParks >= s.cfg.FreezeAt)) {
 					frozen = t
 					continue
 				}
@@ -326,6 +363,7 @@ func Run(cfg Config, clients []Client) Result {
 		if len(runnable) == 0 && frozen != nil {
 			runnable = append(runnable, frozen)
 			s.cfg.FreezeAt = 0 // thawed for good
+			handoffPhase = 2
 			s.res.Thawed++
 		}
 		if len(runnable) == 0 {
